@@ -1074,3 +1074,30 @@ Proof.
   unfold impl_lookup. rewrite E.
   apply (view_eq_overlay_on_Dp_unpruned_lemma cfg im st0 DP LU i p); [lia|exact Np].
 Qed.
+
+(* the invariant itself, for later use (PruneProofs.v) *)
+Lemma view_inv_lemma cfg im st :
+  Dp cfg im = true -> load_unpruned cfg im = Some st ->
+  forall i, (i < length (init_slots im))%nat -> inv (nth i (st_chains st) empty_trie) (slots_upto im i).
+Proof.
+  intros DP LD i Hi.
+  unfold load_unpruned in LD. destruct (negb (config_valid cfg)); [discriminate|].
+  set (n := length (init_slots im)) in *.
+  pose proof (gfacts_of_Dp _ _ DP) as G.
+  assert (RES : length (st_chains st) = n /\
+                forall k, (k < n)%nat -> inv (nth k (st_chains st) empty_trie) (dlk k ([] ++ rev (all_slots im)))).
+  { eapply (slots_steps cfg n (rev (index_from 0 (init_slots im))) [] (init_state n) st).
+    - exact G.
+    - apply desc_rev_index.
+    - intros a b [].
+    - intros s Hs. apply in_rev in Hs. apply index_from_fst in Hs. unfold n. lia.
+    - unfold init_state. simpl. rewrite map_length, seq_length. reflexivity.
+    - intros k Hk. unfold init_state. simpl.
+      rewrite (nth_indep _ empty_trie (Node (Some (root_node 0)) [])) by (rewrite map_length, seq_length; exact Hk).
+      change (Node (Some (root_node 0)) []) with ((fun i => Node (Some (root_node i)) []) 0%nat).
+      rewrite map_nth, seq_nth by exact Hk. simpl. split.
+      + exists (root_node k). repeat split.
+      + intros q Nq. destruct q; [contradiction|reflexivity].
+    - exact LD. }
+  destruct RES as [_ INV]. specialize (INV i Hi). cbn [app] in INV. rewrite dlk_all in INV. exact INV.
+Qed.
